@@ -268,8 +268,9 @@ def resolve( path, attribute=False ):
                     ( "Unrecognized symbolic name %r found in path %r" % ( tag, path['segment'] )
                       if tag
                       else "Invalid term %r found in path %r" % ( working, path['segment'] ))
-                if found and not tag and canonicalize_tag( found + u'.' + working['symbolic'] ) in symbol:
-                    # Tags "A" and "A.B" both exist: the longer name is the Tag addressed
+                longer		= canonicalize_tag( found + u'.' + working['symbolic'] ) if found and not tag else None
+                if longer is not None and any( s == longer or s.startswith( longer + u'.' ) for s in symbol ):
+                    # Tags "A" and "A.B" (or "A.B.C") both exist: the longer name is the Tag addressed
                     tag		= found
                     result	= dict.fromkeys( result )
                 if tag:
